@@ -58,6 +58,13 @@ META = {
 }
 
 C_TOL = 1.0e3      # forward-error constant (measured ratios on the clean tree stay below ~15)
+STAT: dict = {}    # largest observed error / allowed-error ratio per check (goes into the evidence notes)
+
+
+def stat(name, val):
+    v = float(val)
+    if v > STAT.get(name, 0.0):
+        STAT[name] = v
 
 
 def eps_of(case):
@@ -171,7 +178,7 @@ def gen_mpc_nls_case(rng, big=True):
                 phi=rng.choice([0.0, 0.5, 1.0, 2.0]), condQ=rng.choice([1, 10, 100]), qscale=1.0, pscale=rng.choice([0, 1, 1, 5]),
                 x0scale=rng.choice([0, 0.3, 1, 2]),
                 steps=rng.choice([1, 2, 3, 4]) if strong else rng.choice([1, 2, 3, 5, 8, 12]),
-                patience=rng.choice([1, 2, 3, 5]), decreasing=rng.choice([1e-3, 1e-3, 0.3]), tol=rng.choice([1e-5, 1e-5, -1e9]),
+                patience=rng.choice([1, 2, 3, 5, 5]), decreasing=rng.choice([1e-3, 1e-3, 0.3]), tol=rng.choice([1e-5, -1e9, -1e9, -1e9]),
                 uinit=rng.choice(["none", ["rand", 0.3, 0], ["rand", 1.0, 1]]), calls=rng.choice([1, 1, 2, 3]),
                 data_seed=rng.randrange(1 << 30))
     return case
@@ -188,11 +195,11 @@ def nontrivial(case):
 
 # ----------------------------------------------------------------------------- oracles on one returned trajectory
 
-def check_solution(ctx: Ctx, case, prob, refs, x, u, cost, tag, x0np=None):
+def check_solution(ctx: Ctx, case, prob, refs, x, u, cost, tag, ubar=None, T=None):
     """the property's own clauses for one returned (x, u, cost); refs[b] is the dense reference of item b.
     Returns True when every clause holds."""
     eps = eps_of(case)
-    Bn, T, ns, nc = case["B"], case["T"], case["ns"], case["nc"]
+    Bn, T, ns, nc = case["B"], (case["T"] if T is None else T), case["ns"], case["nc"]
     ok = True
     if tuple(x.shape) != (Bn, T + 1, ns) or tuple(u.shape) != (Bn, T, nc) or tuple(cost.shape) != (Bn,):
         ctx.fail(case, f"shape: {tag}: returned shapes x{tuple(x.shape)} u{tuple(u.shape)} cost{tuple(cost.shape)}")
@@ -204,6 +211,7 @@ def check_solution(ctx: Ctx, case, prob, refs, x, u, cost, tag, x0np=None):
     for b in range(Bn):
         r = refs[b]
         x0 = r.x0
+        tol_u, tol_x, _ = r.tols(None if ubar is None else ubar[b])
         if not np.array_equal(xn[b, 0], x0):
             ctx.fail(case, f"start: {tag}: x[0] != x_init (item {b}: {xn[b, 0].tolist()} vs {x0.tolist()})")
             ok = False
@@ -212,6 +220,7 @@ def check_solution(ctx: Ctx, case, prob, refs, x, u, cost, tag, x0np=None):
             res = xn[b, t + 1] - (r.A[t] @ xn[b, t] + r.B[t] @ un[b, t] + r.c[t])
             sc = np.abs(r.A[t]) @ np.abs(xn[b, t]) + np.abs(r.B[t]) @ np.abs(un[b, t]) + np.abs(r.c[t])
             bad = np.abs(res) > 32 * eps * sc + 1e-300
+            stat("dynamics", (np.abs(res) / (32 * eps * sc + 1e-300)).max())
             if bad.any():
                 ctx.fail(case, f"dynamics: {tag}: x[{t + 1}] != A x[{t}] + B u[{t}] + c1 (item {b}, residual "
                                f"{np.abs(res).max():.3e}, allowed {float((32 * eps * sc).max()):.3e})")
@@ -219,24 +228,28 @@ def check_solution(ctx: Ctx, case, prob, refs, x, u, cost, tag, x0np=None):
                 break
         # reported cost
         J, Ja = r.cost(xn[b], un[b])
+        stat("cost", abs(J - cn[b]) / (16 * (T + ns + nc) * eps * Ja + 1e-300))
         if abs(J - cn[b]) > 16 * (T + ns + nc) * eps * Ja + 1e-300:
             ctx.fail(case, f"cost: {tag}: reported cost {cn[b]!r} != sum of stage costs {J!r} (item {b})")
             ok = False
         # optimality: stationarity + distance to the reference optimum + cost not above it
         g = r.grad(un[b])
         sg, _ = r.grad_scale(un[b])
-        tol_g = C_TOL * eps * (np.abs(r.H) @ r.tol_u.reshape(-1)).reshape(T, nc) + C_TOL * eps * sg
+        tol_g = C_TOL * eps * (np.abs(r.H) @ tol_u.reshape(-1)).reshape(T, nc) + C_TOL * eps * sg
+        stat("gradient", (np.abs(g) / (tol_g + 1e-300)).max())
+        stat("u-vs-optimum", (np.abs(un[b] - r.u) / (C_TOL * eps * tol_u + 1e-300)).max())
+        stat("x-vs-optimum", (np.abs(xn[b] - r.x) / (C_TOL * eps * tol_x + 1e-300)).max())
         if (np.abs(g) > tol_g + 1e-300).any():
             j = np.unravel_index(np.argmax(np.abs(g) / (tol_g + 1e-300)), g.shape)
             ctx.fail(case, f"optimal: {tag}: gradient of the total cost w.r.t. u[{j[0]}][{j[1]}] is {g[j]:.3e} "
                            f"(allowed {tol_g[j]:.3e}); cost {J!r} vs optimum {r.J!r} (item {b})")
             ok = False
-        elif (np.abs(un[b] - r.u) > C_TOL * eps * r.tol_u + 1e-300).any() or (np.abs(xn[b] - r.x) > C_TOL * eps * r.tol_x + 1e-300).any():
+        elif (np.abs(un[b] - r.u) > C_TOL * eps * tol_u + 1e-300).any() or (np.abs(xn[b] - r.x) > C_TOL * eps * tol_x + 1e-300).any():
             du = float(np.abs(un[b] - r.u).max())
             ctx.fail(case, f"optimal: {tag}: returned inputs differ from the minimiser by {du:.3e} (item {b}); "
                            f"cost {J!r} vs optimum {r.J!r}")
             ok = False
-        elif J - r.J > C_TOL * eps * Ja:
+        elif J - r.J > C_TOL * eps * Ja + (C_TOL * eps) ** 2 * float(tol_u.reshape(-1) @ np.abs(r.H) @ tol_u.reshape(-1)) + 1e-300:
             ctx.fail(case, f"optimal: {tag}: cost {J!r} above the optimum {r.J!r} (item {b})")
             ok = False
     return ok
@@ -315,7 +328,7 @@ def run_lqr_case(ctx: Ctx, case, lines, metas):
                 lq2 = U.make_lqr(c2, p2, system)
                 xo, uo, co = lq2(torch.tensor(p2["x0"], dtype=dt_t), case["dt"])
                 refs2 = [U.make_ref(p2, b, op[1]) for b in range(Bn)]
-                ok &= check_solution(ctx, dict(case, focus=op), p2, refs2, xo, uo, co, f"other problem (T={op[1]}) on the same system")
+                ok &= check_solution(ctx, dict(case, focus=op), p2, refs2, xo, uo, co, f"other problem (T={op[1]}) on the same system", T=op[1])
                 ctx.count("lqr.op.other")
             elif kind == "otherx0":
                 rs = np.random.RandomState(op[1])
@@ -336,12 +349,13 @@ def run_lqr_case(ctx: Ctx, case, lines, metas):
                 if ch:
                     ctx.fail(case, f"purity: {tag}: LQR modified {ch}")
                     ok = False
-                good = check_solution(ctx, case, prob, refs, x, u, cost, tag)
+                good = check_solution(ctx, case, prob, refs, x, u, cost, tag, ubar=un)
                 ok &= good
                 if good and nsolve == 1:
                     ok &= perturb_test(ctx, case, refs, u, tag)
+                tl = [refs[b].tols(None if un is None else un[b]) for b in range(Bn)]
                 if first is None:
-                    first = (x.detach().double().numpy(), u.detach().double().numpy(), cost.detach().double().numpy())
+                    first = (x.detach().double().numpy(), u.detach().double().numpy(), cost.detach().double().numpy(), tl)
                     # gains of the same nominal for the model comparison (fresh LQR object: no effect on the history)
                     lqg = U.make_lqr(case, prob, system)
                     clk = int(system.systime)
@@ -350,13 +364,13 @@ def run_lqr_case(ctx: Ctx, case, lines, metas):
                     for b in range(Bn):
                         lines.append(U.lqr_line(case, prob, b, un, dt=1 if not isinstance(case["dt"], int) else case["dt"]))
                         metas.append((case, b, first[0][b], first[1][b], float(first[2][b]), K[b].detach().double().numpy(),
-                                      k[b].detach().double().numpy(), refs[b]))
+                                      k[b].detach().double().numpy(), refs[b], tl[b]))
                 else:
                     # nominal / history independence, stated directly between two solves
                     for b in range(Bn):
                         r = refs[b]
                         du = np.abs(u[b].detach().double().numpy() - first[1][b])
-                        if (du > 2 * C_TOL * eps * r.tol_u + 1e-300).any():
+                        if (du > C_TOL * eps * (tl[b][0] + first[3][b][0]) + 1e-300).any():
                             ctx.fail(case, f"history: {tag} differs from the first solve on the same system by {du.max():.3e} in u (item {b})")
                             ok = False
                 prev_u = u.detach().double().numpy()
@@ -370,18 +384,19 @@ def run_lqr_case(ctx: Ctx, case, lines, metas):
 
 
 def compare_lqr_model(ctx: Ctx, reps, metas):
-    for rep, (case, b, xi, ui, ci, Ki, ki, r) in zip(reps, metas):
+    for rep, (case, b, xi, ui, ci, Ki, ki, r, (tol_u, tol_x, _sg)) in zip(reps, metas):
         ns, nc, T = case["ns"], case["nc"], case["T"]
         eps = eps_of(case)
         xm, um, cm, Km, km = U.parse_lqr_reply(rep, ns, nc, T)
         # model vs dense reference: a mismatch here is an infrastructure problem (both are mine), not a verdict
-        if (np.abs(um - r.u) > C_TOL * eps * r.tol_u + 1e-300).any():
+        if (np.abs(um - r.u) > C_TOL * eps * tol_u + 1e-30).any():
             raise common.InfraError(f"Lean model and dense reference disagree on case {sig_of(case)} item {b}: "
                                     f"{np.abs(um - r.u).max():.3e}")
         _, Ja = r.cost(xm, um)
-        eu = np.abs(ui - um) / (C_TOL * eps * r.tol_u + 1e-300)
-        ex = np.abs(xi - xm) / (C_TOL * eps * r.tol_x + 1e-300)
-        ec = abs(ci - cm) / (C_TOL * eps * Ja + 1e-300)
+        eu = np.abs(ui - um) / (C_TOL * eps * tol_u + 1e-300)
+        ex = np.abs(xi - xm) / (C_TOL * eps * tol_x + 1e-300)
+        ec = abs(ci - cm) / (C_TOL * eps * (Ja + float((_sg * tol_u).sum())) + 1e-300)
+        stat("model.u", eu.max()); stat("model.x", ex.max()); stat("model.cost", ec)
         if eu.max() > 1 or ex.max() > 1 or ec > 1:
             ctx.disagree("lqr", case, f"item {b}: implementation vs model: u {np.abs(ui - um).max():.3e} (ratio {eu.max():.2f}), "
                                       f"x {np.abs(xi - xm).max():.3e} (ratio {ex.max():.2f}), cost {abs(ci - cm):.3e} (ratio {ec:.2f})")
@@ -390,6 +405,7 @@ def compare_lqr_model(ctx: Ctx, reps, metas):
         sK = np.abs(Km).max() + 1e-300
         sk = np.abs(km).max() + np.abs(um).max() + 1e-300
         eK, ek = np.abs(Ki - Km).max() / sK, np.abs(ki - km).max() / sk
+        stat("model.K", eK / kap); stat("model.k", ek / kap)
         if eK > kap or ek > kap:
             ctx.disagree("gains", case, f"item {b}: K differs by {eK:.3e}, k by {ek:.3e} relative (allowed {kap:.3e})")
 
@@ -464,12 +480,12 @@ def run_mpc_linear(ctx: Ctx, case, lines, metas):
             if snap.changed():
                 ctx.fail(case, f"purity: {tag}: MPC modified {snap.changed()}")
                 ok = False
-            ok &= check_solution(ctx, case, prob, refs, x, u, cost, tag)
+            ok &= check_solution(ctx, case, prob, refs, x, u, cost, tag, ubar=uin)
             ok &= check_mpc_loop(ctx, case, rec, tag)
             nums, L = U.linear_nums(case, prob, 0, uin)
             lines.append(U.mpc_line(case, nums, L, uin is not None, case["steps"], case["patience"], pc0, case["decreasing"], case["tol"]))
             metas.append((case, call, len(rec.calls) - 1, int(stepper.patience_count), x[0].double().numpy(), u[0].double().numpy(),
-                          float(cost[0]), refs[0], None))
+                          float(cost[0]), (refs[0], refs[0].tols(None if uin is None else uin[0])), None))
             ctx.count("mpc.linear.call")
     except common.InfraError:
         raise
@@ -604,23 +620,25 @@ def compare_mpc_model(ctx: Ctx, reps, metas):
                 continue
             tu = 1e4 * eps * (sens[0] + np.abs(um).max() + 1)
             tx = 1e4 * eps * (sens[1] + np.abs(xm).max() + 1)
+            stat("nls.u", np.abs(ui - um).max() / tu); stat("nls.x", np.abs(xi - xm).max() / tx)
             if np.abs(ui - um).max() > tu or np.abs(xi - xm).max() > tx or abs(ci - cm) > 1e4 * eps * (abs(cm) + 1) * (1 + sens[0] + sens[1]):
                 ctx.disagree("nls", case, f"LQR on the nonlinear system: u differs by {np.abs(ui - um).max():.3e} (allowed {tu:.3e}), "
                                           f"x by {np.abs(xi - xm).max():.3e} (allowed {tx:.3e}), cost {ci!r} vs {cm!r}")
             Ki, ki = aux
             tk = 1e4 * eps * (1 + sens[0] + sens[1]) * (1 + np.abs(Km).max() + np.abs(km).max()) * case["condQ"]
+            stat("nls.K", np.abs(Ki - Km).max() / tk); stat("nls.k", np.abs(ki - km).max() / tk)
             if np.abs(Ki - Km).max() > tk or np.abs(ki - km).max() > tk:
                 ctx.disagree("gains", case, f"nonlinear system: K differs by {np.abs(Ki - Km).max():.3e}, k by {np.abs(ki - km).max():.3e} (allowed {tk:.3e})")
             continue
         nm, pcm, xm, um, cm = U.parse_mpc_reply(rep, ns, nc, T)
         if case["kind"] == "mpc_lin":
-            r = extra
+            r, (tol_u, tol_x, _sg) = extra
             if nm != niter or pcm != pc:
                 ctx.disagree("mpc", case, f"call {call + 1}: implementation ran {niter} iterations (patience_count {pc}), model {nm} ({pcm})")
             _, Ja = r.cost(xm, um)
-            eu = np.abs(ui - um) / (C_TOL * eps * r.tol_u + 1e-300)
-            ex = np.abs(xi - xm) / (C_TOL * eps * r.tol_x + 1e-300)
-            if eu.max() > 1 or ex.max() > 1 or abs(ci - cm) > C_TOL * eps * Ja:
+            eu = np.abs(ui - um) / (C_TOL * eps * tol_u + 1e-300)
+            ex = np.abs(xi - xm) / (C_TOL * eps * tol_x + 1e-300)
+            if eu.max() > 1 or ex.max() > 1 or abs(ci - cm) > C_TOL * eps * (Ja + float((_sg * tol_u).sum())) + 1e-300:
                 ctx.disagree("mpc", case, f"call {call + 1}: MPC on a linear system vs model: u {np.abs(ui - um).max():.3e} "
                                           f"(ratio {eu.max():.2f}), x ratio {ex.max():.2f}, cost {ci!r} vs {cm!r}")
             continue
@@ -642,6 +660,7 @@ def compare_mpc_model(ctx: Ctx, reps, metas):
             continue
         tu = 1e4 * eps * (sens[0] + np.abs(um).max() + 1)
         tx = 1e4 * eps * (sens[1] + np.abs(xm).max() + 1)
+        stat("mpc.nls.u", np.abs(ui - um).max() / tu); stat("mpc.nls.x", np.abs(xi - xm).max() / tx)
         if np.abs(ui - um).max() > tu or np.abs(xi - xm).max() > tx:
             if fragile:
                 ctx.count("mpc.nls.fragile-decision")
@@ -742,6 +761,7 @@ def run(ctx: Ctx):
         cases.append(gen_mpc_nls_case(rng, big=not ctx.quick))
     run_cases(ctx, cases)
     run_stepper(ctx, ctx.pick(60, 600))
+    ctx.notes.append("largest observed/allowed ratios: " + ", ".join(f"{k}={v:.3g}" for k, v in sorted(STAT.items())))
 
 
 def search(ctx: Ctx):
